@@ -28,6 +28,7 @@ type c04Case struct {
 	Seed   uint64      `json:"seed,omitempty"`
 	Seq    *gen.Seq    `json:"seq,omitempty"`    // maurer: whole sequence recipe
 	Alpha  []int       `json:"alpha,omitempty"`  // maurer: 7-bit patterns allowed in the initialisation segment
+	Plant  []int       `json:"plant,omitempty"`  // maurer: pattern Plant[0] is removed everywhere and then planted at the 1-based block numbers Plant[1:] (chosen distances)
 	Runner bool        `json:"runner,omitempty"` // go through the registry runner (byte input) as well
 }
 
@@ -149,6 +150,32 @@ func (c c04Case) bits() []bool {
 				}
 			}
 		}
+		if len(c.Plant) > 1 {
+			p := c.Plant[0] & 127
+			nb := len(out) / 7
+			set := func(blk, v int) { // blk is 1-based
+				for j := 0; j < 7; j++ {
+					out[(blk-1)*7+j] = v>>uint(6-j)&1 == 1
+				}
+			}
+			for blk := 1; blk <= nb; blk++ {
+				v := 0
+				for j := 0; j < 7; j++ {
+					v <<= 1
+					if out[(blk-1)*7+j] {
+						v |= 1
+					}
+				}
+				if v == p {
+					set(blk, p^1)
+				}
+			}
+			for _, blk := range c.Plant[1:] {
+				if blk >= 1 && blk <= nb {
+					set(blk, p)
+				}
+			}
+		}
 		return out
 	}
 	r := gen.NewRng(c.Seed ^ 0xabcdef)
@@ -236,6 +263,10 @@ func checkC04Bits(c c04Case, bits []bool) (Outcome, error) {
 				}
 			}
 			seen[p] = true
+		}
+		if len(c.Plant) > 1 {
+			out.Classes = append(out.Classes, "maurer/planted-distances")
+			out.NonTrivial = true
 		}
 		if len(seen) < 128 {
 			out.Classes = append(out.Classes, "maurer/pattern-missing-in-init")
@@ -362,6 +393,24 @@ func genC04(t *rapid.T) c04Case {
 		}
 		q := gen.DrawSeq(t, n, []string{"uniform", "uniform", "uniform", "biased", "constant", "periodic", "markov", "alternating", "sparse"})
 		c.Seq = &q
+		if rapid.IntRange(0, 2).Draw(t, "plant") == 0 {
+			// the statistic is a sum of log2(distance): plant one pattern at chosen block numbers so that chosen distances occur
+			// (first occurrence at block d gives distance d, the table entry still being 0)
+			nb := n / 7
+			c.Plant = []int{rapid.IntRange(0, 127).Draw(t, "pattern")}
+			pos := 0
+			for k := rapid.IntRange(1, 6).Draw(t, "plants"); k > 0; k-- {
+				gap := rapid.SampledFrom([]int{1, 2, 127, 128, 129, 255, 256, 1023, 1024, 1025, 1279, 1280, 1281, 2047, 2048, 4095, 4096, 4097, 8191, 8192}).Draw(t, "gap")
+				if rapid.IntRange(0, 3).Draw(t, "anygap") == 0 {
+					gap = rapid.IntRange(1, max(1, nb)).Draw(t, "gap")
+				}
+				pos += gap
+				if pos > nb {
+					break
+				}
+				c.Plant = append(c.Plant, pos)
+			}
+		}
 		if rapid.IntRange(0, 2).Draw(t, "restrict") == 0 {
 			k := rapid.IntRange(1, 127).Draw(t, "alphabet")
 			for i := 0; i < k; i++ {
